@@ -36,4 +36,4 @@ func TestMain(m *testing.M) {
 
 func TestReplay(t *testing.T) { vstat.RunReplays(t, replayers...) }
 
-var replayers = []vstat.Replayer{propC01, propC02, propC04, propC18, propC05, propC06, propC12, propHostile, propC13, propC03, propC07, propC11, propC15, propC20, propC19, propC16D, propC03Aged, propC08Stall, propC17B, propC11R}
+var replayers = []vstat.Replayer{propC01, propC02, propC04, propC18, propC05, propC06, propC12, propHostile, propC13, propC03, propC07, propC11, propC15, propC20, propC19, propC16D, propC03Aged, propC08Stall, propC17B, propC11R, propC02E}
